@@ -47,3 +47,44 @@ contract("RelativeSequence.transpose", params={"self": "ref:RelativeSequence", "
              ]),
          },
          props=["C14"])
+
+# ---------------------------------------------------------------- pad (C18, C10, C11)
+WS = f"wsum({M}, len({M}))"
+contract("RelativeSequence.pad", params={"self": "ref:RelativeSequence", "padding_length": "int"},
+         requires=[WF_REL()],
+         lemmas=[("wsum_mono", f"wsum_mono({M})")],
+         modifies={"@lists": M},
+         ensures=[
+             ("prefix_kept", f"len({M}) >= old(len({M})) and forall(0, old(len({M})), lambda j: {Mj} == old({Mj}))"),
+             ("no_append_when_long_enough", f"implies(old({WS}) >= padding_length, len({M}) == old(len({M})))"),
+             ("one_wait_appended_when_short", f"implies(old({WS}) < padding_length, len({M}) == old(len({M})) + 1 and fresh({M}[len({M}) - 1])"
+                                               f" and {M}[len({M}) - 1].message_type == MessageType.WAIT and {M}[len({M}) - 1].time == padding_length - old({WS}))"),
+             ("still_wf", WF_REL()),
+         ],
+         loops={"L0": dict(fingerprint="for msg in self._messages", inv=[
+             ("length_so_far", f"current_length == wsum({M}, i)"),
+             ("not_reached", f"current_length < padding_length or forall(0, i, lambda j: {Mj}.message_type != MessageType.WAIT)")])},
+         props=["C18", "C10", "C11"])
+
+# ---------------------------------------------------------------- set_channel (C18)
+contract("RelativeSequence.set_channel", params={"self": "ref:RelativeSequence", "channel": "int"},
+         requires=[DISTINCT(M)],
+         modifies={"channel": M},
+         ensures=[("all_set", f"forall(0, len({M}), lambda j: {Mj}.channel == channel and not is_none({Mj}.channel))"),
+                  ("list_unchanged", f"len({M}) == old(len({M})) and forall(0, len({M}), lambda j: {Mj} == old({Mj}))")],
+         loops={"L0": dict(fingerprint="for msg in self._messages", inv=[
+             ("done", f"forall(0, i, lambda j: {Mj}.channel == channel and not is_none({Mj}.channel))")])},
+         props=["C18"])
+
+# ---------------------------------------------------------------- scale by an integer k >= 1 (C18)
+contract("RelativeSequence.scale", params={"self": "ref:RelativeSequence", "factor": "int", "meta_sequence": "ref:Sequence?"},
+         requires=[WF_REL(), "factor >= 1"],
+         modifies={"time": M},
+         ensures=[("waits_multiplied", f"forall(0, len({M}), lambda j: implies({IS(Mj, 'WAIT')}, {Mj}.time == factor * old({Mj}.time) and not is_none({Mj}.time)))"),
+                  ("others_keep_time", f"forall(0, len({M}), lambda j: implies(not {IS(Mj, 'WAIT')}, {Mj}.time == old({Mj}.time) and is_none({Mj}.time) == old(is_none({Mj}.time))))"),
+                  ("list_unchanged", f"len({M}) == old(len({M})) and forall(0, len({M}), lambda j: {Mj} == old({Mj}))")],
+         loops={"L0": dict(fingerprint="for msg in self._messages", inv=[
+             ("done", f"forall(0, i, lambda j: implies({IS(Mj, 'WAIT')}, {Mj}.time == factor * old({Mj}.time) and not is_none({Mj}.time)))"),
+             ("done_others", f"forall(0, i, lambda j: implies(not {IS(Mj, 'WAIT')}, {Mj}.time == old({Mj}.time) and is_none({Mj}.time) == old(is_none({Mj}.time))))"),
+             ("rest", f"forall(i, len({M}), lambda j: {Mj}.time == old({Mj}.time) and is_none({Mj}.time) == old(is_none({Mj}.time)))")])},
+         props=["C18"])
